@@ -244,13 +244,13 @@ func c05Run(c *fw.Ctx) {
 				for _, rej := range sl {
 					for _, sto := range sl {
 						for _, dis := range sl {
-							for _, mr := range []int{1, 2, 3} {
+							for _, mr := range []int{1, 2, 3, 0} { // 0: no recipient at all fits
 								for oi, order := range rcptOrders {
 									n++
 									if !c.Mine(n) {
 										continue
 									}
-									if !c.Thorough() && ((oi == 2 && mr != 2) || (oi >= 3 && mr != 3)) {
+									if !c.Thorough() && ((oi == 2 && mr != 2) || (oi >= 3 && mr != 3) || (mr == 0 && oi != 0)) {
 										continue
 									}
 									if c.Expired() {
